@@ -220,10 +220,7 @@ def custom_property(scanner: Scanner):
     if scanner.eat(Chars.Dash) and scanner.eat(Chars.Dash):
         scanner.start = start
         scanner.eat_while(is_keyword)
-        token = tokens.CustomProperty(scanner.current())
-        token.end = scanner.pos
-
-        return token
+        return tokens.CustomProperty(scanner.current(), start, scanner.pos)
 
     scanner.pos = start
 
